@@ -1018,3 +1018,52 @@ Lemma copies_independent : forall ops o j, j <> target o ->
 Proof.
   intros ops o j Ne. destruct (step_ok (vrun ops) o (run_inv ops)) as [_ V]. rewrite V. apply vstep_other. exact Ne.
 Qed.
+
+(* ---- a String assigned to a content item through its element ------------------------------------
+   `Xml::Element& e = v.toElement(); <k-th item of e.content> = "text";` (harness op vsubsettext i k t) is run by the
+   driver as three operations of the alphabet with a temporary slot: a fresh text Variant, the item assigned from it in
+   place, the temporary destroyed.  After them slot i holds its element with the k-th item replaced by the text, the
+   temporary is gone, every other slot - in particular every copy of the element or of the old item - holds what it
+   held, and the counts are exact. *)
+Lemma sget_sset_same : forall s i v, sget (sset s i v) i = v.
+Proof.
+  induction s as [|y s IH]; intros i v.
+  - induction i as [|i IHi]; cbn [sset sget]; [reflexivity|exact IHi].
+  - destruct i; cbn [sset sget]; [reflexivity|apply IH].
+Qed.
+
+Lemma vstep_subassign_text : forall s1 i k tmp l c nm at_ ct y,
+  tmp <> i -> sget s1 i = Some (N l c nm at_ ct) -> sget s1 tmp = Some y -> (k < length ct)%nat ->
+  vstep s1 (VSubAssign i k tmp) = sset s1 i (Some (N l c nm at_ (upd_nth k (fun _ => y) ct))).
+Proof.
+  intros s1 i k tmp l c nm at_ ct y Ne Gi Gt Lk. cbn [vstep].
+  destruct (Nat.eqb_spec i tmp) as [E|_]; [congruence|].
+  rewrite Gi, Gt. destruct (Nat.ltb_spec k (length ct)) as [_|B]; [reflexivity|lia].
+Qed.
+
+Lemma text_assigned_to_content_item : forall ops i k t tmp l c nm at_ ct,
+  tmp <> i -> sget (vabs (vrun ops)) i = Some (N l c nm at_ ct) -> (k < length ct)%nat ->
+  let s3 := vrun (ops ++ [VText tmp t; VSubAssign i k tmp; VDel tmp]) in
+  sget (vabs s3) i = Some (N l c nm at_ (upd_nth k (fun _ => T t) ct)) /\
+  sget (vabs s3) tmp = None /\
+  (forall j, j <> i -> j <> tmp -> sget (vabs s3) j = sget (vabs (vrun ops)) j) /\
+  Inv s3.
+Proof.
+  intros ops i k t tmp l c nm at_ ct Ne Gi Lk s3.
+  assert (V : vabs s3 = vstep (vstep (vstep (vabs (vrun ops)) (VText tmp t)) (VSubAssign i k tmp)) (VDel tmp)).
+  { unfold s3. rewrite !run_refines. rewrite fold_left_app. reflexivity. }
+  remember (vabs (vrun ops)) as s0 eqn:E0.
+  remember (vstep s0 (VText tmp t)) as s1 eqn:E1.
+  assert (G1i : sget s1 i = Some (N l c nm at_ ct)).
+  { rewrite E1. cbn [vstep]. rewrite sget_sset_other by exact Ne. exact Gi. }
+  assert (G1t : sget s1 tmp = Some (T t)).
+  { rewrite E1. cbn [vstep]. apply sget_sset_same. }
+  rewrite (vstep_subassign_text s1 i k tmp l c nm at_ ct (T t) Ne G1i G1t Lk) in V.
+  split; [|split; [|split]].
+  - rewrite V. cbn [vstep]. rewrite sget_sset_other by exact Ne. apply sget_sset_same.
+  - rewrite V. cbn [vstep]. apply sget_sset_same.
+  - intros j Nji Njt. rewrite V. cbn [vstep].
+    rewrite sget_sset_other by congruence. rewrite sget_sset_other by congruence.
+    rewrite E1. cbn [vstep]. apply sget_sset_other. congruence.
+  - apply run_inv.
+Qed.
